@@ -586,6 +586,18 @@ func Input(l *InputSharedVars, g *GlobalVarsMain, hPath *HFilePath, driConfig *C
 				// ! -- Setzen des Simulationsbeginns für Zeitschleife
 				// set simulation start for time loop
 				g.BEGINN = g.ERNTE[0]
+				// the irrigation schedule was read before the start was known: drop the irrigations dated before it
+				keptIrrigations := 0
+				for i := 0; i < l.ANZBREG; i++ {
+					if g.ZTBR[i] >= g.BEGINN {
+						g.ZTBR[keptIrrigations], g.BREG[keptIrrigations], g.BRKZ[keptIrrigations] = g.ZTBR[i], g.BREG[i], g.BRKZ[i]
+						keptIrrigations++
+					}
+				}
+				for i := keptIrrigations; i < l.ANZBREG; i++ {
+					g.ZTBR[i], g.BREG[i], g.BRKZ[i] = 0, 0, 0
+				}
+				l.ANZBREG = keptIrrigations
 				// ! Ernte der 1. Frucht = Düngung Nr. 1 mit Ernterückständen
 				// Harvest of first crop = Fertilization nr. 1 with harvest residue
 				g.ZTDG[0] = g.ERNTE[0]
